@@ -340,8 +340,8 @@ def run(ctx):
     for s in scen:
         n = len([t for t in s if t not in ('mode', 'nofail')])
         bound = pb2 if (n <= 2 or not quick) else 1
-        if not quick and n <= 2: bound = 99      # 2 actors: all interleavings
-        jobs.append((s, bound, None, 200000))
+        if not quick and n <= 2: bound = 3       # 2 actors: one more preemption than quick (all interleavings do not fit: >200000 per scenario)
+        jobs.append((s, bound, None, 200000 if quick else 60000))
     # discover fault sites from the default schedule of each scenario
     pre = runner.pmap(run_scenario, [(s, 0, None, 1) for s in scen])
     for (s, _, _, _), st in pre:
@@ -381,7 +381,7 @@ def run(ctx):
              'execution differs from all others in its choice sequence or fault; the reader invariant is evaluated after every '
              'step (states = steps); non-trivial = every execution (at least two actors on one build-id)',
         exhaustive=not capped, samples=samples,
-        bounds=dict(scenarios=['+'.join(s) for s in scen], preemption_bound_2actors=(pb2 if quick else 'unbounded'),
+        bounds=dict(scenarios=['+'.join(s) for s in scen], preemption_bound_2actors=(pb2 if quick else 3),
                     preemption_bound_3plus=(1 if quick else pb2),
                     faults='kill and ENOSPC at every intercepted call of every actor (default schedule%s), ENOSPC at every write of A/M/U' % ('' if quick else ' and every schedule with <=1 preemption')),
         mirror_sizes=dict(payload_lengths=nsizes, distinct_size_residues=len(residues)),
